@@ -95,6 +95,11 @@ var units = map[string]*unit{
 }
 
 func init() {
+	units["GoLiveCfg"] = &unit{
+		name: "GoLiveCfg", file: "config.go", recv: "atomicCircuitConfig", funcs: []string{"reset"},
+		imports: []string{"CircuitModel.GoLiveCfgPrims"}, open: []string{"CM", "CM.Go", "CM.GoLiveCfg"}, vars: "", monad: "LM",
+		types: map[string]string{"Config": "GoConfig"},
+	}
 	units["GoTimedCheck"] = &unit{
 		name: "GoTimedCheck", file: "faststats/timedcheck.go", recv: "TimedCheck",
 		funcs:   []string{"SetSleepDuration", "SetEventCountToAllow", "SleepStart", "resetOpenTimeWithLock", "Check"},
